@@ -41,3 +41,8 @@ CORPUS = [
     M("n-early-return-form", D, "        if not len(self._updated_properties):\n            return", "        if not self._updated_properties:\n            return", "S"),
     M("n-advance-form", C, "            # Advanced to next property\n            props = props[4+size:]\n\n    def get_property", "            # Advanced to next property\n            props = props[size+4:]\n\n    def get_property", "S"),
 ]
+# round 3: the value written under BREEZE_CONTROL is the member's value
+CORPUS += [
+    M("breeze-off-zero", D, "    class BreezeMode(MideaIntEnum):\n        OFF = 1", "    class BreezeMode(MideaIntEnum):\n        OFF = 0"),
+    M("breeze-members-swapped", D, "        BREEZE_AWAY = 2\n        BREEZE_MILD = 3", "        BREEZE_AWAY = 3\n        BREEZE_MILD = 2"),
+]
